@@ -23,12 +23,14 @@ func init() {
 			"removeNoLock has no other callers than eviction and the explicit RemoveItem. (S3 co-update) items / itemsAsList / numBytes change together: insertion = list PushBack + map insert + numBytes add, " +
 			"removal = map delete + list Remove + numBytes subtract, and nothing else writes them (the byte limit is enforced against numBytes). " +
 			"A full chunk refuses an item only as the outcome of the eviction walk (evictItemsNoLock); shardedData.ImmunizeSetOfDataAgainstEviction reaches cache.ImmunizeKeys on every return not decided by the keys argument alone. " +
+			"Every return of immunityChunk.RemoveItem passes the delete from immuneKeys. " +
 			"Not decided (value-level): eviction order, the arithmetic of the byte accounting.",
 		Run: runC27,
 	})
 }
 
 func runC27(c *core.Ctx) {
+	c27RemovalRevokesImmunity(c)
 	const pkg = "storage/immunitycache"
 	c27AdmissionAndImmunize(c)
 	// ---- S1
@@ -355,4 +357,27 @@ func c27AdmissionAndImmunize(c *core.Ctx) {
 		}
 		c.Floor("C27/immunize-reaches-the-cache", 1)
 	}
+}
+
+// c27RemovalRevokesImmunity: removing a key revokes its immunity whether or not the item is in the
+// cache yet (keys can be immunized for the future): every return of immunityChunk.RemoveItem passes
+// the delete from immuneKeys. A marker that survives makes later items wrongly immune - a chunk
+// full of them refuses every new item - and counts against the immune capacity.
+func c27RemovalRevokesImmunity(c *core.Ctx) {
+	fn := anchorM(c, "storage/immunitycache", "immunityChunk", "RemoveItem")
+	if fn == nil {
+		return
+	}
+	revokes := func(in ssa.Instruction) bool {
+		call, ok := in.(*ssa.Call)
+		if !ok {
+			return false
+		}
+		b, isB := call.Call.Value.(*ssa.Builtin)
+		return isB && b.Name() == "delete" && isFieldOf(call.Call.Args[0], "immuneKeys")
+	}
+	esc, path := core.PathQ{Fn: fn, Via: revokes, Target: core.AnyReturn}.Escape()
+	c.Check(esc == nil, "C27/removal-revokes-immunity", "immunityChunk.RemoveItem", fn.Pos(),
+		"every return passes delete(immuneKeys, key)",
+		"immunityChunk.RemoveItem can return without revoking the key's immunity ("+c.P.PathString(path)+"): a key immunized for the future and then removed keeps its marker, later items under it are wrongly immune and a full chunk refuses new items instead of evicting")
 }
